@@ -361,8 +361,93 @@ fn one_variant<V: Variant>(ctx: &mut Ctx, tier: Tier) {
     seeds_part::<V>(ctx, tier);
 }
 
+/// call histories of the secret-key decoder on ONE thread: every ordered pair and every triple (x, y, x) over an
+/// alphabet of valid encodings (two Falcon-512 keys, one Falcon-1024 key) and rejected ones (reserved pattern in the
+/// first field of f, in a middle field of g, in the last field of F; one byte short; other variant's header): a
+/// decoder that keeps scratch state between calls (and leaves it dirty after a rejection) shows in the next call
+fn decoder_histories(ctx: &mut Ctx) {
+    let (ka, kb, kc) = (crate::api::key::<V512>(0).0, crate::api::key::<V512>(1).0, crate::api::key::<V1024>(0).0);
+    let (ba, bb, bc) = (V512::sk_to_bytes(&ka), V512::sk_to_bytes(&kb), V1024::sk_to_bytes(&kc));
+    let reserve = |bytes: &[u8], n: usize, poly: usize, fld: usize| -> Vec<u8> {
+        let w = keycodec::fg_bits(n);
+        let (width, base) = match poly {
+            0 => (w, 8),
+            1 => (w, 8 + n * w),
+            _ => (8, 8 + 2 * n * w),
+        };
+        let mut b = bytes.to_vec();
+        let pos = base + fld * width;
+        for k in 0..width {
+            let bit = pos + k;
+            let v = if k == 0 { 1 } else { 0 };
+            b[bit / 8] = (b[bit / 8] & !(1 << (7 - bit % 8))) | (v << (7 - bit % 8));
+        }
+        b
+    };
+    // (name, bytes, variant, expected Ok)
+    let items: Vec<(&str, Vec<u8>, usize, bool)> = vec![
+        ("valid 512 key A", ba.clone(), 512, true),
+        ("valid 512 key B", bb.clone(), 512, true),
+        ("valid 1024 key", bc.clone(), 1024, true),
+        ("512, reserved value in f[0]", reserve(&ba, 512, 0, 0), 512, false),
+        ("512, reserved value in g[256]", reserve(&ba, 512, 1, 256), 512, false),
+        ("512, reserved value in F[511]", reserve(&ba, 512, 2, 511), 512, false),
+        ("1024, reserved value in f[1023]", reserve(&bc, 1024, 0, 1023), 1024, false),
+        ("512, one byte short", ba[..ba.len() - 1].to_vec(), 512, false),
+        ("1024 bytes given to the 512 decoder", bc.clone(), 512, false),
+    ];
+    let decode = |it: &(&str, Vec<u8>, usize, bool)| -> Result<Option<Vec<u8>>, String> {
+        let b = it.1.clone();
+        if it.2 == 512 {
+            crate::ctx::catch(move || V512::sk_from_bytes(&b).ok().map(|k| V512::sk_to_bytes(&k)))
+        } else {
+            crate::ctx::catch(move || V1024::sk_from_bytes(&b).ok().map(|k| V1024::sk_to_bytes(&k)))
+        }
+    };
+    let mut hists: Vec<Vec<usize>> = vec![];
+    for x in 0..items.len() {
+        for y in 0..items.len() {
+            hists.push(vec![x, y]);
+            if x != y {
+                hists.push(vec![x, y, x]);
+            }
+        }
+    }
+    let mut part = Part::new("decoder_call_histories", &format!("every ordered pair and every triple (x, y, x) of SecretKey::from_bytes calls on one fresh thread over an alphabet of {} byte strings (three valid keys of both variants; reserved value in the first field of f / a middle field of g / the last field of F; one byte short; the other variant's bytes): every call must accept exactly the valid strings and re-encode them byte for byte, whatever was decoded before", items.len()));
+    let res: Vec<(Vec<usize>, Vec<Result<Option<Vec<u8>>, String>>)> = hists.par_iter().map(|h| {
+        let h2 = h.clone();
+        let its: Vec<(&str, Vec<u8>, usize, bool)> = items.clone();
+        let r = crate::sched::on_fresh_thread(move || h2.iter().map(|&i| decode(&its[i])).collect::<Vec<_>>()).unwrap_or_default();
+        (h.clone(), r)
+    }).collect();
+    for (h, rs) in res {
+        part.states += 1;
+        let names: Vec<&str> = h.iter().map(|&i| items[i].0).collect();
+        for (step, r) in rs.iter().enumerate() {
+            part.transitions += 1;
+            part.validated += 1;
+            let it = &items[h[step]];
+            let bad = match r {
+                Err(e) => Some(format!("panicked: {}", e)),
+                Ok(Some(back)) if it.3 && *back == it.1 => None,
+                Ok(Some(_)) if it.3 => Some("was accepted but re-encodes differently".to_string()),
+                Ok(Some(_)) => Some("was accepted although it is not a valid encoding".to_string()),
+                Ok(None) if it.3 => Some("was rejected although it is a valid encoding".to_string()),
+                Ok(None) => None,
+            };
+            if let Some(why) = bad {
+                ctx.violation(format!("decoder-history:{}", if it.3 { "valid-key-after-other-calls" } else { "invalid-string" }), format!("in the call history {:?} on one thread, call {} ({}) {}", names, step + 1, it.0, why), json!({"kind":"decoder-history","history":h}));
+            }
+        }
+    }
+    part.exhaustive = true;
+    part.outcome("every call judged on its own".to_string());
+    ctx.add_part(part);
+}
+
 pub fn run(tier: Tier) {
     let mut ctx = Ctx::new("C05", tier);
+    decoder_histories(&mut ctx);
     one_variant::<V512>(&mut ctx, tier);
     one_variant::<V1024>(&mut ctx, tier);
     crate::history::differential(&mut ctx, "history_differential_round_trips", &["D512", "D1024", "S512", "S1024"], 2, &|op, digest| {
@@ -383,6 +468,9 @@ pub fn run(tier: Tier) {
 pub fn replay(case: &Value) -> Result<Option<String>, String> {
     if case.get("kind").and_then(|k| k.as_str()) == Some("e5") {
         return crate::e5::replay(case);
+    }
+    if case.get("kind").and_then(|k| k.as_str()) == Some("decoder-history") {
+        return Err("re-run ./vf check C05 (the call histories are enumerated deterministically)".into());
     }
     if case.get("kind").and_then(|k| k.as_str()) == Some("history") {
         return crate::history::replay(case);
